@@ -167,7 +167,7 @@ func (cx *c20Ctx) requestShapeGet(tab *c20Table, rule string) {
 				badReq = "`" + src(r.P.Fset, do.call) + "` is reached although the error of `" + src(r.P.Fset, nr.call) + "` was not tested nil"
 			}
 			switch {
-			case !c20IsInput(nr.args[1], "p1"):
+			case !c20IsInput(nr.args[1], cx.getKey(cx.get.url)):
 				badURL = "`" + src(r.P.Fset, nr.call) + "` requests " + nr.args[1].String() + ", not the URL parameter unchanged"
 			case nr.args[2].k != c20kNil:
 				badURL = "`" + src(r.P.Fset, nr.call) + "` sends a request body"
@@ -179,7 +179,7 @@ func (cx *c20Ctx) requestShapeGet(tab *c20Table, rule string) {
 			posDec = dec.call.Pos()
 			srcV := dec.recv.fields["src"]
 			switch {
-			case len(dec.args) != 1 || !c20IsInput(dec.args[0], "p2"):
+			case len(dec.args) != 1 || !c20IsInput(dec.args[0], cx.getKey(cx.get.item)):
 				badDec = "`" + src(r.P.Fset, dec.call) + "` does not decode into the caller's item parameter"
 			case !(dec.recv.k == c20kObj && dec.recv.tag == "decoder" && srcV.k == c20kObj && srcV.tag == "body" && srcV.id == do.id):
 				badDec = "`" + src(r.P.Fset, dec.call) + "` does not read the Body of the response returned by Do"
